@@ -45,6 +45,13 @@ class Tup:
         self.items = list(items)
 
 
+class SeqVal:
+    """element-wise view of arrays: index normal form -> value normal form (slices / element-wise arithmetic of uninterpreted arrays)"""
+    def __init__(self, fn, length=None):
+        self.fn = fn
+        self.length = length
+
+
 class Opaque:
     def __init__(self, desc: str, node: Optional[ast.AST] = None):
         self.desc = desc
@@ -177,7 +184,15 @@ class Frag:
                 if isinstance(e.right, ast.Constant) and isinstance(e.right.value, int) and abs(e.right.value) <= 8:
                     return a ** e.right.value
                 raise Uninterpretable("non-integer power %s" % ast.unparse(e))
-            a, b = self.num(self.ev(e.left)), self.num(self.ev(e.right))
+            la, lb = self.ev(e.left), self.ev(e.right)
+            if isinstance(la, SeqVal) or isinstance(lb, SeqVal):
+                opf = {ast.Add: lambda x, y: x + y, ast.Sub: lambda x, y: x - y, ast.Mult: lambda x, y: x * y, ast.Div: lambda x, y: x / y}.get(type(e.op))
+                if opf is None:
+                    raise Uninterpretable("operator %s on sequences" % type(e.op).__name__)
+                fa = la.fn if isinstance(la, SeqVal) else (lambda i, v=self.num(la): v)
+                fb = lb.fn if isinstance(lb, SeqVal) else (lambda i, v=self.num(lb): v)
+                return SeqVal(lambda i: opf(fa(i), fb(i)))
+            a, b = self.num(la), self.num(lb)
             if isinstance(e.op, ast.Add):
                 return a + b
             if isinstance(e.op, ast.Sub):
@@ -200,9 +215,19 @@ class Frag:
                 if r is not None:
                     return r
             base = self.ev(e.value)
+            if isinstance(e.slice, ast.Slice) and isinstance(base, (Arr, SeqVal)) and e.slice.step is None:
+                # constant-offset slice of a (1-D) array: element i of the slice is element i + lower of the array
+                lo = self.num(self.ev(e.slice.lower), "slice bound") if e.slice.lower is not None else C(0)
+                if isinstance(base, Arr):
+                    if base.idx:
+                        raise Uninterpretable("slice of a partially indexed array %s" % ast.unparse(e))
+                    return SeqVal(lambda i, b=base, lo=lo: self.atom(b.base, (i + lo,)))
+                return SeqVal(lambda i, b=base, lo=lo: b.fn(i + lo))
             if isinstance(e.slice, (ast.Slice, ast.Tuple)):
                 raise Uninterpretable("slice/tuple subscript %s" % ast.unparse(e))
             idx = self.num(self.ev(e.slice), "index")
+            if isinstance(base, SeqVal):
+                return base.fn(idx)
             if isinstance(base, Arr):
                 return Arr(base.base, base.idx + (idx,))
             if isinstance(base, ListVal):
@@ -228,6 +253,12 @@ class Frag:
                 r = self.on_call(self, e)
                 if r is not None:
                     return r
+            if isinstance(e.func, ast.Attribute) and e.func.attr in ("expand", "repeat") and isinstance(e.func.value, ast.Subscript) \
+                    and isinstance(e.func.value.slice, ast.Slice) and e.func.value.slice.lower is None and isinstance(e.func.value.slice.upper, ast.Constant) \
+                    and e.func.value.slice.upper.value == 1:
+                b = self.ev(e.func.value)
+                if isinstance(b, SeqVal):
+                    return SeqVal(lambda i, b=b: b.fn(C(0)))      # one element broadcast to every position
             raise Uninterpretable("call %s" % ast.unparse(e))
         if isinstance(e, ast.Attribute):
             if self.on_attr is not None:
@@ -330,6 +361,12 @@ class Frag:
 
     @staticmethod
     def same(a, b) -> bool:
+        if isinstance(a, SeqVal) and isinstance(b, SeqVal):
+            i = S("$probe")
+            try:
+                return a.fn(i).eq(b.fn(i))
+            except Exception:
+                return False
         if isinstance(a, Rat) and isinstance(b, Rat):
             return a.eq(b)
         if isinstance(a, Arr) and isinstance(b, Arr):
@@ -355,8 +392,13 @@ class Frag:
         for k in keys:
             if k in a.env and k in b.env and self.same(a.env[k], b.env[k]):
                 self.env[k] = a.env[k]
+            elif k in a.env and k in b.env and isinstance(a.env[k], (Rat, Arr)) and isinstance(b.env[k], (Rat, Arr)):
+                # both branches bind the name to different values: an opaque, data-dependent value
+                self.env[k] = S("PHI{%s@%d}" % (k, s.lineno))
+            elif k in a.env and k in b.env and isinstance(a.env[k], SeqVal) and isinstance(b.env[k], SeqVal):
+                self.env[k] = SeqVal(lambda i, k=k, ln=s.lineno: self.atom("PHI{%s@%d}" % (k, ln), (i,)))
             else:
-                self.env[k] = None   # disagreeing / one-sided binding: unusable afterwards
+                self.env[k] = None   # one-sided binding: unusable afterwards
         self.branches.append((s, a, b))
         return None
 
